@@ -627,7 +627,7 @@ class InvariantObserver:
             self.env_ok = False
         self.snap = {a: self._snap_app(real, a) for a in self._apps(real)}
         self.used0 = set(real.e._used_physical_qubit_addresses)
-        self.registry0 = sorted(k for k, v in SharedMemoryManager._MEMORIES.items() if v is not None)
+        self.shm0 = {a: id(sm) for a, sm in real.e._shared_memories.items()}
 
     def fail(self, what, idx, o, **kw):
         self.failures.append({"what": what, "op_index": idx, "op": o, **kw})
@@ -669,7 +669,8 @@ class InvariantObserver:
         # (5) a rejected life-cycle operation leaves the state unchanged
         if o["k"] in ("init", "stop") and faulted:
             now = {x: self._snap_app(real, x) for x in self._apps(real)}
-            if now != self.snap or used != self.used0:
+            shm = {x: id(sm) for x, sm in e._shared_memories.items()}
+            if now != self.snap or used != self.used0 or shm != self.shm0:
                 self.fail("rejected %s changed the executor state" % o["k"], idx, o)
         # (6) stop releases qubits and memory; a stopped / never registered id can be registered
         if o["k"] == "stop" and not faulted:
@@ -677,6 +678,9 @@ class InvariantObserver:
             if any(p in used for p in mine) or a in self._apps(real):
                 self.fail("stop_application left qubits or memory of the application behind", idx, o,
                           still_used=[p for p in mine if p in used])
+        if o["k"] == "stop" and faulted and a in self.snap:
+            self.fail("stopping a running application was refused: its qubits and memory are not released", idx, o,
+                      error=r["fault"], still_used=[p for p in (self.snap[a].get("unit") or []) if p is not None])
         if o["k"] == "init" and faulted and a not in self.snap:
             self.fail("registering an application id that is not running was rejected", idx, o,
                       error=r["fault"])
